@@ -53,13 +53,19 @@ func genC31(seed uint64, tier string) any {
 	if sc.KeyMode == "auto" && r.Chance(1, 3) {
 		// a week of roughly daily connections: keys are created and dropped along the way
 		for d := 0; d < 9; d++ {
-			sc.Events = append(sc.Events, c31Event{Kind: "advance", Hours: []int{20, 23, 24, 25, 30}[r.Intn(5)]}, c31Event{Kind: "connect"})
+			sc.Events = append(sc.Events, c31Event{Kind: "advance", Hours: []int{20, 23, 24, 25, 30}[r.Intn(5)]})
+			if d >= 5 && r.Chance(1, 2) {
+				sc.Events = append(sc.Events, c31Event{Kind: "restore", Off: r.Intn(3)})
+			}
+			sc.Events = append(sc.Events, c31Event{Kind: "connect"})
 		}
 		return sc
 	}
 	conns := 1
 	for conns < n {
-		switch r.Pick([]int{0, 2, 2, 3, 6, 2, 1, 1}) {
+		switch r.Pick([]int{0, 2, 2, 3, 6, 2, 1, 1, 2}) {
+		case 8:
+			sc.Events = append(sc.Events, c31Event{Kind: "restore", Off: r.Intn(8)})
 		case 1:
 			if sc.KeyMode == "explicit" {
 				sc.Events = append(sc.Events, c31Event{Kind: "rotate_keep"})
@@ -255,6 +261,19 @@ func execC31(t *testing.T, scAny any, keepLog bool) *Outcome {
 			case "server_max":
 				srvA.MaxVersion = ev.Max
 				o.count("fault.version_change", 1)
+			case "restore":
+				// the client falls back to a session it stored earlier (authentic, but possibly old)
+				var mine []*tls.ClientSessionState
+				for _, st := range cache.puts {
+					if it := find(tls.VerifSessionTicket(st)); it != nil && it.ByA {
+						mine = append(mine, st)
+					}
+				}
+				if len(mine) < 2 {
+					continue
+				}
+				cache.cur[serverName] = mine[ev.Off%(len(mine)-1)]
+				o.count("fault.old_session_restored", 1)
 			case "foreign":
 				// obtain a ticket from server B with a throw-away cache, then plant it into the client's session for A
 				cur, ok := cache.cur[serverName]
@@ -321,6 +340,16 @@ func execC31(t *testing.T, scAny any, keepLog bool) *Outcome {
 				co := startConn(run, fmt.Sprintf("c%d", connIdx), ccfg, srvA, sc.Net, nil)
 				s.Run()
 				connIdx++
+				if (co.CErr != nil || co.SErr != nil) && tampered && find(offered) != nil && find(offered).ByA {
+					// the "altered" ticket happens to be byte-identical to another authentic ticket of this server,
+					// planted into a session with different secrets: the server accepts the ticket and the
+					// binder / Finished check must then abort the handshake. Nothing to assert.
+					o.count("probe.authentic_ticket_with_foreign_secrets", 1)
+					tampered = false
+					delete(cache.cur, serverName)
+					prev = nil
+					continue
+				}
 				if co.CErr != nil || co.SErr != nil {
 					o.Fail = Failf("c31.failed", "handshake failed instead of falling back to a full handshake", "connection %d (event %d, tampered=%v): client %v server %v", connIdx, ei, tampered, co.CErr, co.SErr)
 					break
@@ -509,7 +538,7 @@ func init() {
 		Stub:   []string{"client session cache (harness-owned, via the public ClientSessionCache interface)", "transport", "clock", "entropy"},
 		Assume: []string{"a resumed connection must present a ticket byte-identical to one issued by this server", "progress is only asserted for unaltered tickets younger than one hour under the current first key with an unchanged offer"},
 		FaultKinds: []string{"fault.ticket_flip", "fault.ticket_flip_name", "fault.ticket_flip_iv", "fault.ticket_flip_body", "fault.ticket_flip_mac", "fault.ticket_trunc", "fault.ticket_extend", "fault.ticket_splice", "fault.ticket_empty",
-			"fault.ticket_foreign", "fault.rotate_keep", "fault.rotate_drop", "fault.clock_advance", "fault.clock_advance_beyond_lifetime", "fault.version_change", "probe.resumed", "probe.full_handshake", "probe.tampered_ticket_presented"},
+			"fault.ticket_foreign", "fault.old_session_restored", "fault.rotate_keep", "fault.rotate_drop", "fault.clock_advance", "fault.clock_advance_beyond_lifetime", "fault.version_change", "probe.resumed", "probe.full_handshake", "probe.tampered_ticket_presented"},
 		NotInjected: "wire-level corruption of the ticket is C25/C32 territory (it breaks the Finished check); no storage",
 		Gen:         genC31, New: func() any { return &c31Scenario{} }, Exec: execC31, Shrink: shrinkC31,
 		QuickRuns: 4000, ThoroughRuns: 300000,
